@@ -333,6 +333,16 @@ func (r *RootApp) Run() error {
 		// entry, package or top level).
 		fileConfig := interfacesInFile.interfaces[0].Config
 
+		// One formatter runs per file, but a formatter mockery doesn't know
+		// is a mistake whichever mock of the file names it.
+		for _, iface := range interfacesInFile.interfaces {
+			switch pkg.Formatter(*iface.Config.Formatter) {
+			case pkg.FormatGofmt, pkg.FormatGoImports, pkg.FormatNoop:
+			default:
+				return fmt.Errorf("unknown formatter type: %s", *iface.Config.Formatter)
+			}
+		}
+
 		generator, err := pkg.NewTemplateGenerator(
 			fileCtx,
 			interfacesInFile.srcPkg,
